@@ -73,3 +73,45 @@ Theorem C05_one_in_flight_acceptor_verdicts : forall x cap0 fx ls iv,
   snd iv = Monitor.V_TWO_IN_FLIGHT_CLOSING /\ fx = false.
 Proof. exact MonitorSound.one_in_flight_verdicts. Qed.
 Print Assumptions C05_one_in_flight_acceptor_verdicts.
+
+(** ** Round "proofs": blocking mode - liveness without a pending writer, publish order *)
+From WM Require GoChannel.RegLive GoChannel.RegBlock.
+
+(** "Publish does return ..." fails only through a pending writer (D9).  In every reachable state
+    (any mode, all schedules) in which no Subscribe / replay / teardown is between its write-lock
+    request and its unlock and something is busy, some internal step is enabled, or a Publish is
+    at its wait for a message whose snapshot was taken, not yet acked, nothing closing - and the
+    environment step "all Senders of p have finished" is enabled: a blocked Publish waits for
+    nothing but its subscribers' Acks. *)
+Theorem C05_blocking_progress_without_pending_writer : forall pers blk fx ls,
+  let s := grun (ginit pers blk fx) ls in
+  writer s = None -> wpending s = [] -> RegLive.busy s ->
+  (exists l, RegLive.internal l = true /\ RegLive.en s l) \/ RegBlock.Waiting s.
+Proof. exact RegBlock.blocking_progress_without_pending_writer. Qed.
+Print Assumptions C05_blocking_progress_without_pending_writer.
+
+(** the D9 deadlock state is exactly in the complement: an announced writer *)
+Example C05_d9_has_pending_writer :
+  let s := grun (ginit false true true) d9_schedule in
+  wpending s = [OwS 1] /\ writer s = None /\ Reg.thr s 0 = PWait 0 1 [] /\ mem 1 (acked s) = false.
+Proof. exact RegBlock.d9_has_pending_writer. Qed.
+
+(** every run of internal steps is bounded by the measure - blocking mode included *)
+Theorem C05_blocking_internal_runs_bounded : forall pers blk fx ls ils s',
+  let s := grun (ginit pers blk fx) ls in
+  forallb RegLive.internal ils = true -> greplay s ils = Some s' ->
+  length ils + RegLive.measure s' <= RegLive.measure s.
+Proof. exact RegBlock.blocking_internal_run_bounded. Qed.
+Print Assumptions C05_blocking_internal_runs_bounded.
+
+(** per-publisher order, registry half: in blocking mode a Publish call takes the snapshot of a
+    message only after every earlier message of the same call is acked by all subscribers of its
+    snapshot (or the Pub/Sub is closing); no Sender of the later message exists before that *)
+Theorem C05_blocking_snapshot_order : forall pers ls t k p rem,
+  let s := grun (ginit pers true true) ls in
+  Reg.thr s t = PSend k (p :: rem) ->
+  exists done, pmsgs s t = done ++ p :: rem
+    /\ (forall q, In q done -> mem q (acked s) = true \/ gclosing s = true)
+    /\ (forall x, nsenders s p x = 0).
+Proof. exact RegBlock.blocking_snapshot_order. Qed.
+Print Assumptions C05_blocking_snapshot_order.
